@@ -160,5 +160,12 @@ func c05(c *Ctx) {
 	c.Guarded("maxltx/keep-maximum", ml, p.PlainCalls("path/filepath.Join"), gs(GP("(phi(0|"+pf+"#1) < "+pf+"#1)", true)), 1,
 		"the candidate replaces the current one only when its max TXID is larger", "Open must re-apply the NEWEST file")
 
+	c.journalValidity("rollback/journal-table")
+
+	// a received snapshot discards newer stale files before the image moves
+	pl := "litefs.(*Store).processLTXStreamFrame"
+	c.BeforeG("pub/processLTXStreamFrame/snapshot-reset-before-apply", pl, call("ApplyLTXNoLock"), p.PlainCalls("litefs.removeFilesExcept"), gs(GP("ltx.(*Header).IsSnapshot(&new(ltx.Header))", false)), 1,
+		"a received snapshot removes all other LTX files before it is applied", "Open recovers to the HIGHEST TXID on disk: a crash during the snapshot apply with stale higher-numbered files still present re-applies a file of the abandoned history over the snapshot image; every restart then fails")
+
 	c.divGuards("div")
 }
